@@ -158,6 +158,13 @@ func (w *World) BuildScript(ob *Obligation, forCVC5 bool) string {
 		}
 		fmt.Fprintf(&sb, "(assert (forall ((b Ref)) (! (and (= (addrtag (%s b)) %d) (= (addrbase (%s b)) b) (= (born (%s b)) (born b))) :pattern ((%s b)))))\n", sym, w.fldTags[sym], sym, sym, sym)
 	}
+	// element addresses: injective in (base, index), disjoint from field addresses and from allocated objects
+	if used["elemref"] {
+		sb.WriteString("(declare-fun elemidx (Ref) Int)\n(assert (forall ((b Ref) (i Int)) (! (and (= (addrtag (elemref b i)) (- 1)) (= (addrbase (elemref b i)) b) (= (elemidx (elemref b i)) i) (= (born (elemref b i)) (born b))) :pattern ((elemref b i)))))\n")
+	}
+	if used["aelemref"] {
+		sb.WriteString("(declare-fun aelemidx (Ref) Int)\n(assert (forall ((b Ref) (i Int)) (! (and (= (addrtag (aelemref b i)) (- 2)) (= (addrbase (aelemref b i)) b) (= (aelemidx (aelemref b i)) i) (= (born (aelemref b i)) (born b))) :pattern ((aelemref b i)))))\n")
+	}
 	for _, f := range w.strLitFacts(used) {
 		sb.WriteString(f)
 		sb.WriteByte('\n')
